@@ -374,6 +374,33 @@ def run(scn, st):
         if op.get("complement"):
             complement_seen = True
     if w.gfa is not None and twin.gfa is not None:
+        # the twin, which nobody has read so far, and the Gfa give the same later answers: the in-place edits of references that a connected line refuses
+        # are refused whether the lines were read before or not
+        def edit_attempts(gg):
+            out = []
+            for l in ob.listed_lines(gg):
+                if l.virtual:
+                    continue
+                for f in getattr(l.__class__, "REFERENCE_FIELDS", []):
+                    o = core.call(l.get, f)
+                    if not o.ok:
+                        continue
+                    vals = o.value if isinstance(o.value, list) else [o.value]
+                    for k_, x in enumerate(vals[:4]):
+                        if isinstance(x, gfapy.OrientedLine):
+                            def flip(x=x):
+                                x.orient = "-" if x.orient == "+" else "+"
+                            r = core.call(flip)
+                            out.append((l.record_type, f, k_, "accepted" if r.ok else r.excname))
+            return out
+        eb = edit_attempts(twin.gfa)
+        ea = edit_attempts(w.gfa)
+        st.count("oracle.twin_later_answers")
+        if ea != eb:
+            d = [(x, y) for x, y in zip(ea, eb) if x != y][:2]
+            raise core.Violation("queries-changed-later-answer",
+                                 "in-place edits of the references of connected lines: with the read-only calls before %r, "
+                                 "without them %r" % ([x for x, _ in d], [y for _, y in d]), what="edit-protection")
         st.count("oracle.twin_without_queries")
         v = w.gfa.version
         a = [gtext.canon_lines(x, v) for x in ob.text_lines(w.gfa)] if v in ("gfa1", "gfa2") else ob.text_lines(w.gfa)
@@ -384,6 +411,8 @@ def run(scn, st):
                                  "the same mutations without the read-only calls write a different document: line %d is %r "
                                  "with the calls, %r without" % (i, a[i] if i < len(a) else None, b[i] if i < len(b) else None),
                                  what="order" if sorted(map(str, a)) == sorted(map(str, b)) else "content")
+
+
 
 
 from .c02 import simplify as _s  # noqa: E402
